@@ -141,6 +141,7 @@ pub fn u2(thorough: bool) -> Vec<Ty> {
     }
     s.extend(fold_sensitive());
     s.extend(nested_unions());
+    s.extend(function_unions());
     s.into_iter().collect()
 }
 
@@ -198,6 +199,38 @@ pub fn nested_unions() -> Vec<Ty> {
         for w in &wrappers {
             out.push(Ty::union([w(u.clone()), Ty::Bool]));
             out.push(Ty::mutc(Ty::union([w(u.clone()), Ty::Bool])));
+        }
+    }
+    out
+}
+
+/// Function types whose parameters have structure (structs of different widths, callbacks with
+/// different results, unions, containers) and every union of two of them: a union lies below
+/// exactly what both members lie below, also when the members' parameter types have no
+/// expressible greatest lower bound.
+pub fn function_unions() -> Vec<Ty> {
+    let i = Ty::Int;
+    let params: Vec<Ty> = vec![
+        Ty::strukt(&[("a", i.clone())]),
+        Ty::strukt(&[("a", i.clone()), ("b", i.clone())]),
+        Ty::strukt(&[("b", i.clone())]),
+        Ty::func(vec![], Ty::Int),
+        Ty::func(vec![], Ty::Str),
+        Ty::func(vec![], Ty::Never),
+        Ty::Int,
+        Ty::union([Ty::Int, Ty::Float]),
+        Ty::Any,
+        Ty::arr(Ty::Int),
+        Ty::Tup(vec![Ty::Int, Ty::Int]),
+        Ty::mutc(Ty::Int),
+    ];
+    let mut out = Vec::new();
+    let fs: Vec<Ty> = params.iter().map(|p| Ty::func(vec![p.clone()], Ty::Int)).collect();
+    for (k, f) in fs.iter().enumerate() {
+        out.push(f.clone());
+        out.push(Ty::func(vec![params[k].clone()], Ty::Void));
+        for g in fs.iter().skip(k + 1) {
+            out.push(Ty::union([f.clone(), g.clone()]));
         }
     }
     out
